@@ -171,13 +171,18 @@ fn make_pool(rng: &mut Rng, lang: &str, size: usize) -> Vec<String> {
                 if rng.chance(1, 2) { (*rng.pick(corpus::EN_EXTRA)).to_string() } else if !native.is_empty() { (*rng.pick(&native)).to_string() } else { (*rng.pick(ecom)).to_string() }
             }
             6..=7 => synth_title(rng, alphabet),
-            _ => match rng.below(12) {
+            _ => match rng.below(14) {
                 10 => {
                     // a title of 21..90 words: the per-call match vectors start with room for 20
                     let n = rng.range(21, 90);
                     (0..n).map(|_| synth_word(rng, alphabet, 1, 5)).collect::<Vec<_>>().join(" ")
                 }
                 11 => long_word(rng, 71, 140),
+                12 | 13 => {
+                    // a "mega title": many real words, hundreds of distinct grams
+                    let k = rng.range(8, 20);
+                    (0..k).map(|_| (*rng.pick(ecom)).to_string()).collect::<Vec<_>>().join(" ")
+                }
                 8 => corpus::soup(rng),
                 9 => {
                     let t = (*rng.pick(ecom)).to_string();
@@ -264,6 +269,30 @@ impl GStore {
     }
 }
 
+/// A foreign client in ANOTHER language that uses the victim's own words: same spelling,
+/// different stemming / character classes / function words on the same thread.
+fn pollute_vocab_op(rng: &mut Rng, t: usize, vocab: &[String]) -> Op {
+    if vocab.is_empty() {
+        return pollute_op(rng, t);
+    }
+    let lang = (*rng.pick(&LANGS)).to_string();
+    let mut titles = Vec::new();
+    let mut queries = Vec::new();
+    for _ in 0..rng.range(1, 3) {
+        let title = rng.pick(vocab).clone();
+        let mut q = type_query(rng, &title);
+        if rng.chance(1, 2) {
+            q.push(' '); // a finished last word matches through its stem
+        }
+        queries.push(q);
+        if rng.chance(1, 2) {
+            queries.push(title.clone());
+        }
+        titles.push(title);
+    }
+    Op::Pollute { t, lang, titles, queries }
+}
+
 fn pollute_op(rng: &mut Rng, t: usize) -> Op {
     let lang = pick_lang(rng);
     let mut titles = Vec::new();
@@ -322,6 +351,7 @@ fn gen_hist(prop: &str, rng: &mut Rng) -> (Config, Vec<Op>) {
     let f_prime = rng.chance(1, 2);
     let f_swing = rng.chance(1, 2);
     let f_repeat = rng.chance(1, 2);
+    let f_echo = rng.chance(1, 2);
     let size_class = if tiny { 0 } else { match prop {
         "C06" => rng.weighted(&[3, 5, 2]),
         "C18" => rng.weighted(&[2, 5, 3]),
@@ -427,7 +457,8 @@ fn gen_hist(prop: &str, rng: &mut Rng) -> (Config, Vec<Op>) {
             }
             4 => {
                 if f_pollute && rng.chance(1, 4) {
-                    ops.push(pollute_op(rng, g.thread));
+                    let op = if rng.chance(1, 3) { pollute_vocab_op(rng, g.thread, &g.held) } else { pollute_op(rng, g.thread) };
+                    ops.push(op);
                 }
                 if f_repeat && rng.chance(1, 40) {
                     // many calls in a row: counters that wrap, idle heuristics, caches that fill up
@@ -455,6 +486,21 @@ fn gen_hist(prop: &str, rng: &mut Rng) -> (Config, Vec<Op>) {
             }
             _ => {
                 ops.push(Op::FreshThread { t: g.thread });
+            }
+        }
+        // echo: the query just used on one store is put to another store on the same thread
+        // straight away (memos keyed on the query text but not on the language or the store)
+        if f_echo && stores.len() > 1 {
+            if let Some(Op::Search { s: s0, q, .. }) = ops.last().cloned() {
+                let t0 = stores.iter().find(|g| g.s == s0).map(|g| g.thread);
+                let peers: Vec<usize> = stores.iter().filter(|g| g.s != s0 && Some(g.thread) == t0).map(|g| g.s).collect();
+                if !peers.is_empty() && rng.chance(1, 3) {
+                    let s1 = *rng.pick(&peers);
+                    ops.push(Op::Search { s: s1, q: q.clone(), deep: false });
+                    if rng.chance(1, 2) {
+                        ops.push(Op::Search { s: s0, q, deep: false });
+                    }
+                }
             }
         }
         // a search follows a state change with probability 1/2 (not always: a search is itself
@@ -497,7 +543,8 @@ fn push_search(rng: &mut Rng, prop: &str, g: &mut GStore, others: &[String], ops
 fn gen_registry(_prop: &str, rng: &mut Rng) -> (Config, Vec<Op>) {
     // Two simulated caller threads with DISJOINT id pools: the registry is thread-local today,
     // but a process-wide registry would satisfy the property as well and must not alarm.
-    let pools: [[usize; 3]; 2] = [[0, 1, 2], [7, 8, usize::MAX]];
+    // (ids that agree in their low 8 / 16 / 32 bits must still be different stores)
+    let pools: [[usize; 5]; 2] = [[0, 1, 2, 1 + (1 << 32), 1 + (1 << 16)], [7, 8, usize::MAX, 7 + (1 << 32), 7 + (1 << 8)]];
     let capacity = *rng.pick(&[None, None, Some(1), Some(3), Some(20)]);
     let n_clients = if deep() { rng.range(4, 6) } else { rng.range(2, 5) };
     let mut clients: Vec<(usize, usize)> = Vec::new();
@@ -580,12 +627,15 @@ fn gen_replica(_prop: &str, rng: &mut Rng) -> (Config, Vec<Op>) {
     let threads = rng.range(1, 3);
     let capacity = *rng.pick(&[None, None, Some(1), Some(3), Some(20)]);
     let lang = pick_lang(rng);
-    let limit = if deep() { *rng.pick(&[10usize, 50, 100, 1000]) } else { *rng.pick(&[1usize, 2, 3, 5, 10, 10, 100]) };
-    let n_cap = if deep() { 600 } else if rng.chance(1, 6) { 120 } else { 24 };
-    let n = rng.range(2, (10 * limit).min(n_cap));
+    // one quick run in 150 (and a third of the deep ones) is "big": more than a thousand records
+    // under a limit of 200 or 1000, so that |store| <= 10*limit still holds
+    let big = if deep() { rng.chance(1, 3) } else { rng.chance(1, 150) };
+    let limit = if big { *rng.pick(&[200usize, 1000]) } else if deep() { *rng.pick(&[10usize, 50, 100, 1000]) } else { *rng.pick(&[1usize, 2, 3, 5, 10, 10, 100]) };
+    let n_cap = if big { 1600 } else if deep() { 600 } else if rng.chance(1, 6) { 120 } else { 24 };
+    let n = if big { rng.range(1030, 1600) } else { rng.range(2, (10 * limit).min(n_cap)) };
     let replicas = if deep() { rng.range(3, 5) } else { rng.range(2, 4) };
     // the message set: n adds with pairwise distinct ratings; titles share words so that queries hit several
-    let pool_size = rng.range(2, n.max(2));
+    let pool_size = if big { rng.range(2, 12) } else { rng.range(2, n.max(2)) };
     let pool = make_pool(rng, &lang, pool_size);
     let mut msgs: Vec<(usize, String, usize)> = Vec::new();
     let mut ratings: Vec<usize> = Vec::new();
@@ -655,7 +705,8 @@ fn gen_replica(_prop: &str, rng: &mut Rng) -> (Config, Vec<Op>) {
             }
         }
         if f_pollute && rng.chance(1, 12) {
-            ops.push(pollute_op(rng, thread_of[s]));
+            let op = if rng.chance(1, 2) { pollute_vocab_op(rng, thread_of[s], &delivered_titles) } else { pollute_op(rng, thread_of[s]) };
+            ops.push(op);
         }
         if threads > 1 && rng.chance(1, 20) {
             let t = rng.below(threads);
@@ -760,11 +811,31 @@ fn gen_scratch(_prop: &str, rng: &mut Rng, run: u64) -> (Config, Vec<Op>) {
                 4 => synth_word(rng, alph, 0, 4),
                 _ => synth_word(rng, alph, 0, 30),
             };
-            plan.push(match rng.below(10) {
-                0..=4 => Op::Dist { t, ca: class_string(&a), cb: class_string(&b), a, b },
-                5..=7 => Op::Jacc { t, a, b },
-                _ => Op::WMatch { t, r: a, q: b, fin: rng.chance(1, 2) },
-            });
+            match rng.below(12) {
+                0..=4 => plan.push(Op::Dist { t, ca: class_string(&a), cb: class_string(&b), a, b }),
+                5..=7 => plan.push(Op::Jacc { t, a, b }),
+                8 => plan.push(Op::WMatch { t, r: a, q: b, fin: rng.chance(1, 2) }),
+                9 => plan.push(Op::JCheck { t, r: a, q: b, fin: rng.chance(1, 2) }),
+                _ => {
+                    // a family of words of one length that share a long prefix and differ in the tail,
+                    // compared one after the other (caches keyed on a truncated or hashed word)
+                    let base: Vec<char> = synth_word(rng, alph, 18, 40).chars().collect();
+                    let al: Vec<char> = alph.chars().collect();
+                    let tail = rng.range(1, 4).min(base.len());
+                    let fin = rng.chance(1, 2);
+                    for _ in 0..rng.range(2, 4) {
+                        let mut r = base.clone();
+                        let mut q = base.clone();
+                        for k in 0..tail {
+                            let i = base.len() - 1 - k;
+                            r[i] = *rng.pick(&al);
+                            q[i] = *rng.pick(&al);
+                        }
+                        let (r, q): (String, String) = (r.into_iter().collect(), q.into_iter().collect());
+                        plan.push(if rng.chance(1, 2) { Op::JCheck { t, r, q, fin } } else { Op::WMatch { t, r, q, fin } });
+                    }
+                }
+            }
         }
         // many identical cheap calls in a row, right after something else and right before something
         // else: counters that wrap at 2^8 / 2^16, idle heuristics that fire after 2^10 quiet calls
